@@ -521,8 +521,10 @@ def real_write(case):
         except Exception as e:
             out['parse_exc'] = exc_name(e)
             out['parse_msg'] = str(e)[:200]
+            out['inputs'] = expected_inputs(case)
             return out
         out['parsed'] = [canon_region(r) for r in parsed]
+        out['inputs'] = expected_inputs(case)
         # fixed point: serialise what was parsed (fresh objects: parse again), parse, serialise
         try:
             p1 = Regions.parse(text, format='crtf')
@@ -536,19 +538,422 @@ def real_write(case):
     return out
 
 
+# ------------------------------------------------------------------ oracle (Spec level, independent of the Lean model)
+
+def excluded(v):
+    return v is False or (isinstance(v, int) and not isinstance(v, bool) and v == 0) or v == '-'
+
+
+def meta_dict(entries):
+    return {k: v for k, v in entries}
+
+
+def dec_prints_zero(x, p):
+    """does f'{x:.{p}f}' show only zeros?  (exact: round-half-even of the exact value)"""
+    return float(f'{float(Fraction(x)):.{p}f}') == 0.0
+
+
+def representable(case):
+    cs, ru = case['coordsys'], case['radunit']
+    if cs != 'image' and cs not in SKY_FRAMES:
+        return False
+    if (cs == 'image' and ru not in ('deg', 'pix')) or (cs != 'image' and ru not in RADUNITS):
+        return False
+    for s in case['regions']:
+        if s['cls'] not in WRITE_CLASSES or s['sky'] != (cs != 'image'):
+            return False
+    return True
+
+
+def unreadable_causes(case, inputs):
+    """known reasons for which the current tree cannot read back what it wrote."""
+    p = int(case['fmt'][1:-1])
+    causes = set()
+    for s, e in zip(case['regions'], inputs):
+        vis = meta_dict(s['visual'])
+        if s['cls'] == 'point' and 'symbol' not in vis:
+            causes.add('F20')
+        if case['coordsys'] == 'image' and s['cls'] in ('polygon', 'line'):
+            causes.add('F21')
+        if case['radunit'] == 'arcsec' and s['cls'] in ('circleannulus', 'ellipse', 'rectangle'):
+            causes.add('F33')
+        sizes = [Fraction(x) for x in e.get('sizes', [])]
+        written = [x / 2 for x in sizes] if s['cls'] == 'ellipse' else sizes
+        if any(dec_prints_zero(x, p) for x in written):
+            causes.add('F19')
+        if s['cls'] == 'circleannulus' and len(written) == 2 and \
+                float(f'{float(written[0]):.{p}f}') >= float(f'{float(written[1]):.{p}f}'):
+            causes.add('F19')
+    return sorted(causes)
+
+
+def canon_unordered(c):
+    d = dict(c)
+    d['meta'] = sorted(map(repr, c['meta']))
+    d['visual'] = sorted(map(repr, c['visual']))
+    return d
+
+
+def oracle_write(case, real):
+    V = []
+    if not representable(case):
+        return V
+    p = int(case['fmt'][1:-1])
+    half = Fraction(1, 2) / 10 ** p
+
+    def bad(kind, detail, **kw):
+        V.append(dict({'kind': kind, 'detail': f"{detail} :: coordsys={case['coordsys']} fmt={case['fmt']} "
+                                                f"radunit={case['radunit']} classes={[s['cls'] for s in case['regions']]}"}, **kw))
+    if 'exc' in real:
+        bad('serialize_exception', real['exc'])
+        return V
+    if real['text_fresh'] != real['text']:
+        bad('nondeterministic', 'fresh objects serialise differently')
+    if real['mutated']:
+        keys = [[k for k, _ in case['regions'][i]['meta']] for i in real['mutated']]
+        bad('input_mutated', f"regions {real['mutated']} changed by serialize()", mutated_has_include=all('include' in k for k in keys))
+    if real['text_twice'] != real['text']:
+        ex = [i for i, s in enumerate(case['regions']) if excluded(meta_dict(s['meta']).get('include', True))]
+        bad('serialize_twice_differs', f'second serialisation of the same objects differs; excluded regions {ex}',
+            some_excluded=bool(ex))
+    inputs = real.get('inputs', [])
+    if 'parse_exc' in real:
+        bad('roundtrip_unreadable', f"{real['parse_exc']}: {real.get('parse_msg')}", causes=unreadable_causes(case, inputs))
+        return V
+    parsed = real['parsed']
+    if len(parsed) != len(case['regions']):
+        bad('region_count', f'{len(parsed)} regions read for {len(case["regions"])} written')
+        return V
+    ru_name = {'deg': 'deg', 'arcmin': 'arcmin', 'arcsec': 'arcsec', 'rad': 'rad', 'pix': ''}[case['radunit']]
+    for i, (s, e, g) in enumerate(zip(case['regions'], inputs, parsed)):
+        if 'unavailable' in e:
+            continue
+        sky = s['sky']
+        if g['kind'] != s['cls'] or g['frame'] != case['coordsys']:
+            bad('class_changed', f"region {i}: {s['cls']}/{case['coordsys']} came back as {g['kind']}/{g['frame']}")
+            continue
+        eps = Fraction(1, 10 ** 10)
+        ok = len(g['pts']) == len(e['pts'])
+        for a, b in zip(e['pts'], g['pts']) if ok else []:
+            dx = abs(Fraction(a[0]) - Fraction(b[0]))
+            if sky:
+                dx = min(dx, abs(dx - 360))
+            if dx > half + eps or abs(Fraction(a[1]) - Fraction(b[1])) > half + eps:
+                ok = False
+        tol = 2 * half if s['cls'] == 'ellipse' else half
+        if len(g['sizes']) != len(e['sizes']):
+            ok = False
+        for a, b in zip(e['sizes'], g['sizes']):
+            if abs(Fraction(a) - Fraction(b[0])) > tol + eps * max(1, abs(Fraction(a))) or b[1] != (ru_name if sky else ''):
+                ok = False
+        if (e['angle'] is None) != (g['angle'] is None):
+            ok = False
+        elif e['angle'] is not None:
+            if abs(Fraction(e['angle']) - Fraction(g['angle'][0])) > half + eps * 400 or g['angle'][1] != 'deg':
+                ok = False
+        if not ok:
+            bad('geometry_off', f"region {i} {s['cls']}: expected {e} got pts={g['pts']} sizes={g['sizes']} angle={g['angle']}")
+        im = meta_dict(s['meta'])
+        iv = meta_dict(s['visual'])
+        gm = {k: list(v.values())[0] for k, v in g['meta']}
+        gv = {k: list(v.values())[0] for k, v in g['visual']}
+        if gm.get('include') != (not excluded(im.get('include', True))):
+            bad('include_sense', f"region {i}: include={im.get('include', True)!r} came back as {gm.get('include')}")
+        if gm.get('type') != ('ann' if im.get('type') == 'ann' else 'reg'):
+            bad('annotation_type', f"region {i}: type={im.get('type')!r} came back as {gm.get('type')}")
+        if s['cls'] == 'text':
+            if g['text'] != s['text']:
+                bad('text_lost', f"region {i}: text {s['text']!r} came back as {g['text']!r}", text_in_meta=('text' in im))
+        elif str(im.get('label', '')) != '' and gm.get('label') != str(im['label']):
+            bad('label_lost', f"region {i}: label {im['label']!r} came back as {gm.get('label')!r}")
+        if s['cls'] == 'point' and 'symbol' in iv and gv.get('symbol') != str(iv['symbol']):
+            bad('meta_lost', f'region {i}: symbol', key='symbol')
+        for k in SCALAR_META + SCALAR_VIS:
+            src, dst = (iv, gv) if k in SCALAR_VIS else (im, gm)
+            if k in src and str(src[k]) != '' and dst.get(k) != str(src[k]):
+                bad('meta_lost', f"region {i}: {k}={src[k]!r} came back as {dst.get(k)!r}", key=k)
+        if 'corr' in im and gm.get('corr') != [str(x) for x in im['corr']]:
+            bad('meta_lost', f"region {i}: corr={im['corr']!r} came back as {gm.get('corr')!r}", key='corr')
+        if 'labeloff' in iv and gv.get('labeloff') != [str(x) for x in iv['labeloff']]:
+            bad('meta_changed', f"region {i}: labeloff={iv['labeloff']!r} came back as {gv.get('labeloff')!r}", key='labeloff',
+                strings=any(isinstance(x, str) for x in iv['labeloff']))
+        if 'range' in im:
+            import astropy.units as u
+            exp = [str(u.Quantity(x)) for x in im['range']]
+            if gm.get('range') != exp:
+                bad('meta_lost', f"region {i}: range={im['range']!r} came back as {gm.get('range')!r}", key='range')
+    # fixed point: parse -> serialise -> parse
+    if 'fp_exc' in real:
+        bad('not_fixed_point', 'serialising / re-reading the parsed regions failed: ' + real['fp_exc'], keys=[])
+    else:
+        a = [canon_unordered(c) for c in parsed]
+        b = [canon_unordered(c) for c in real['parsed2']]
+        if a != b:
+            keys = sorted({k for x, y in zip(parsed, real['parsed2']) for k in
+                           {e[0] for e in x['meta'] + x['visual'] if e not in y['meta'] + y['visual']} |
+                           {e[0] for e in y['meta'] + y['visual'] if e not in x['meta'] + x['visual']}})
+            geo = any({k: v for k, v in x.items() if k not in ('meta', 'visual')} != {k: v for k, v in y.items() if k not in ('meta', 'visual')}
+                      for x, y in zip(parsed, real['parsed2']))
+            bad('not_fixed_point', f'parse(serialize(parse)) differs from parse; keys {keys} geometry {geo}', keys=keys, geometry=geo)
+        elif real['text3'] != real['text2']:
+            bad('not_fixed_point', 'serialising the re-read regions gives another text', keys=[], geometry=False)
+    return V
+
+
+
+# ------------------------------------------------------------------ reference reading of structured lines (CASA rules)
+
+REF_FRAMES = {'j2000': 'fk5', 'b1950': 'fk4', 'icrs': 'icrs', 'galactic': 'galactic', 'supergal': 'supergalactic',
+              'ecliptic': 'geocentrictrueecliptic', 'image': 'image', 'fk5': 'fk5', 'fk4': 'fk4',
+              'supergalactic': 'supergalactic', 'geocentrictrueecliptic': 'geocentrictrueecliptic'}
+REF_KIND = {'circle': 'circle', 'annulus': 'circleannulus', 'ellipse': 'ellipse', 'box': 'rectangle',
+            'centerbox': 'rectangle', 'rotbox': 'rectangle', 'poly': 'polygon', 'line': 'line', 'symbol': 'point',
+            'text': 'text'}
+REF_KEYS = ['frame', 'veltype', 'restfreq', 'color', 'linewidth', 'linestyle', 'symsize', 'symthick', 'font',
+            'fontsize', 'fontstyle', 'usetex', 'labelpos', 'labelcolor']
+REF_VIS = set(SCALAR_VIS) | {'labeloff', 'symbol'}
+
+
+def ref_coord_deg(c):
+    """a coordinate token in degrees (pixels for `pix`)."""
+    if c['t'] == 'dec':
+        v = dec_val(c['d'])
+        return v * 180 / RAD if c['u'] == 'rad' else v
+    v = c['a'] + Fraction(c['b'], 60) + dec_val(c['s']) / 3600
+    v = -v if c['neg'] else v
+    return v * 15 if c['t'] in ('hms', 'colon') else v
+
+
+def ref_lens(b):
+    return [b[f] for f in ('r', 'r1', 'r2', 'a', 'b', 'w', 'h', 'ang') if f in b and isinstance(b[f], dict)]
+
+
+def oracle_read(case, real):
+    V = []
+
+    def bad(kind, detail, **kw):
+        V.append(dict({'kind': kind, 'detail': f"{detail} :: {real['text'][:300]!r}"}, **kw))
+    regs = [l for l in case['lines'] if l['t'] == 'region']
+    unitless = any(l['u'] == 'none' for r in regs for l in ref_lens(r['body']))
+    if unitless:
+        # lengths require units => the file is rejected
+        if real.get('exc') != 'CRTFRegionParserError':
+            bad('unitless_length_accepted', f"result {real.get('exc', 'parsed')}")
+        return V
+    if 'exc' in real:
+        if case['note'] == 'plain':
+            quote = any(l['u'] in ('dq', 'sq') for r in regs for f in (('r1', 'r2'), ('a', 'b'), ('w', 'h'))
+                        for l in [r['body'].get(f[0]), r['body'].get(f[1])] if isinstance(l, dict))
+            bad('valid_file_rejected', f"{real['exc']}: {real.get('msg')}", quote_pair=quote)
+        return V
+    parsed = real['parsed']
+    if len(parsed) != len(regs):
+        bad('region_count', f'{len(parsed)} regions for {len(regs)} region lines')
+        return V
+    gmeta = {}
+    it = iter(parsed)
+    for l in case['lines']:
+        if l['t'] == 'global':
+            for x in l['items']:
+                if x and (x.get('s') != '' or 'l' in x):
+                    gmeta[x['k'].lower()] = x
+            continue
+        if l['t'] != 'region':
+            continue
+        g = next(it)
+        inline = {}
+        for x in l['items']:
+            if x and (x.get('s') != '' or 'l' in x):
+                inline[x['k']] = x
+        merged = dict(gmeta)
+        merged.update(inline)
+        # coord= selects the frame; no coord => image
+        name = merged['coord']['s'].lower() if 'coord' in merged else 'image'
+        frame = REF_FRAMES.get(name)
+        b = l['body']
+        if frame is None or b['n'] not in REF_KIND:
+            continue
+        if g['frame'] != frame:
+            bad('frame_rule', f"coord={name} read as {g['frame']}")
+            continue
+        if g['kind'] != REF_KIND[b['n']]:
+            bad('kind_rule', f"{b['n']} read as {g['kind']}")
+            continue
+        gm = {k: list(v.values())[0] for k, v in g['meta']}
+        gv = {k: list(v.values())[0] for k, v in g['visual']}
+        if gm.get('include') != (not l.get('excl', False)):
+            bad('include_rule', f"excl={l.get('excl')} read as include={gm.get('include')}")
+        if gm.get('type') != ('ann' if l.get('ann') else 'reg'):
+            bad('ann_rule', f"ann={l.get('ann')} read as {gm.get('type')}")
+        # global defaults, inline override
+        for k in REF_KEYS + ['label']:
+            exp = merged[k]['s'] if k in merged and 's' in merged[k] else None
+            if k == 'label' and b['n'] == 'text':
+                exp = exp if 'label' in inline else b['s']
+            got = (gv if k in REF_VIS else gm).get(k)
+            if exp != got:
+                bad('override_rule', f"{k}: inline={inline.get(k)} global={gmeta.get(k)} read as {got!r}", key=k)
+        if 'corr' in merged and gm.get('corr') != (merged['corr'].get('l') if 'l' in merged['corr'] else [merged['corr']['s']]):
+            bad('override_rule', f"corr read as {gm.get('corr')}", key='corr')
+        # geometry
+        pixel = frame == 'image'
+
+        def near(a, bb):
+            return abs(Fraction(a) - Fraction(bb)) <= Fraction(1, 10 ** 9) * max(1, abs(Fraction(a)))
+
+        def lenval(ln):
+            return dec_val(ln['d'])
+        unit_name = {'deg': 'deg', 'rad': 'rad', 'arcmin': 'arcmin', 'arcsec': 'arcsec', 'dq': 'arcsec', 'sq': 'arcmin', 'pix': ''}
+
+        def ptdeg(pt):
+            if pixel:
+                return [dec_val(pt[0]['d']) if pt[0]['t'] == 'dec' else None, dec_val(pt[1]['d']) if pt[1]['t'] == 'dec' else None]
+            return [ref_coord_deg(pt[0]), ref_coord_deg(pt[1])]
+        n = b['n']
+        if n == 'box':
+            c1, c2 = ptdeg(b['c1']), ptdeg(b['c2'])
+            if None not in c1 + c2:
+                cx, cy = (c1[0] + c2[0]) / 2, (c1[1] + c2[1]) / 2
+                if not (near(cx, Fraction(g['pts'][0][0]) if pixel or True else 0) and near(cy, g['pts'][0][1])):
+                    bad('box_rule', f"corner form: centre {g['pts'][0]} expected {(cx, cy)}")
+                if pixel and not (near(abs(c1[0] - c2[0]), g['sizes'][0][0]) and near(abs(c1[1] - c2[1]), g['sizes'][1][0])):
+                    bad('box_rule', f"corner form: size {g['sizes']}")
+                if g['angle'] is None or Fraction(g['angle'][0]) != 0:
+                    bad('box_rule', f"corner form: angle {g['angle']}")
+        else:
+            pts = {'poly': b.get('vs'), 'line': [b.get('p'), b.get('q')]}.get(n) or [b['c']]
+            for pt, gp in zip(pts, g['pts']):
+                e = ptdeg(pt)
+                for j in (0, 1):
+                    if e[j] is not None and not (near(e[j], gp[j]) or (not pixel and j == 0 and near(e[j] % 360, Fraction(gp[j]) % 360))):
+                        bad('coordinate_rule', f"{n}: {gp} expected {e}")
+            if len(pts) != len(g['pts']):
+                bad('coordinate_rule', f'{n}: {len(g["pts"])} points for {len(pts)}')
+        if n == 'ellipse':
+            # [a, b] are the [major, minor] SEMI-axes: width = 2*b, height = 2*a; the angle is as written
+            if not (near(2 * lenval(b['b']), g['sizes'][0][0]) and near(2 * lenval(b['a']), g['sizes'][1][0])
+                    and near(lenval(b['ang']), g['angle'][0]) and g['angle'][1] == unit_name.get(b['ang']['u'], '')):
+                bad('ellipse_rule', f"axes {r_len(b['a'])},{r_len(b['b'])} angle {r_len(b['ang'])} read as {g['sizes']} {g['angle']}")
+        sz = {'circle': ['r'], 'annulus': ['r1', 'r2'], 'centerbox': ['w', 'h'], 'rotbox': ['w', 'h']}.get(n, [])
+        for f, gs in zip(sz, g['sizes']):
+            un = '' if pixel else unit_name.get(b[f]['u'], '')
+            if not near(lenval(b[f]), gs[0]) or gs[1] != un:
+                bad('length_rule', f"{n}.{f}={r_len(b[f])} read as {gs}")
+        if n == 'rotbox' and not (near(lenval(b['ang']), g['angle'][0]) and g['angle'][1] == unit_name.get(b['ang']['u'], '')):
+            bad('length_rule', f"rotbox angle {r_len(b['ang'])} read as {g['angle']}")
+        if n == 'centerbox' and (g['angle'] is None or Fraction(g['angle'][0]) != 0):
+            bad('box_rule', f"centerbox angle {g['angle']}")
+        if n == 'text' and g['text'] != b['s']:
+            bad('text_rule', f"text {b['s']!r} read as {g['text']!r}")
+        if n == 'symbol' and gv.get('symbol') != b['sym']:
+            bad('text_rule', f"symbol {b['sym']!r} read as {gv.get('symbol')!r}")
+    return V
+
+
+# ------------------------------------------------------------------ bundled files: parse -> serialise -> parse on the real code
+
+DATA_FILES = ['CRTFgeneral.crtf', 'CRTFgeneraloutput.crtf', 'CRTF_CARTA.crtf', 'CRTF_labelcolor.crtf',
+              'CRTF_labelcolor_output.crtf', 'crtf_carta_sexagesimal.crtf']
+
+
+def real_file(case):
+    import os
+    import regions
+    from regions import Regions
+    path = os.path.join(os.path.dirname(regions.__file__), 'io', 'crtf', 'tests', 'data', case['file'])
+    out = {}
+    with warnings.catch_warnings():
+        warnings.simplefilter('ignore')
+        try:
+            r1 = Regions.read(path, format='crtf')
+            out['n'] = len(r1)
+            out['p1'] = [canon_region(r) for r in r1]
+            opts = dict(coordsys=case['coordsys'], fmt=case['fmt'], radunit='deg')
+            t2 = Regions.read(path, format='crtf').serialize(format='crtf', **opts)
+            r2 = Regions.parse(t2, format='crtf')
+            out['p2'] = [canon_region(r) for r in r2]
+            t3 = Regions.parse(t2, format='crtf').serialize(format='crtf', **opts)
+            out['t2'], out['t3'] = t2, t3
+            out['p3'] = [canon_region(r) for r in Regions.parse(t3, format='crtf')]
+        except Exception as e:
+            out['exc'] = exc_name(e) + ': ' + str(e)[:200]
+    return out
+
+
+def oracle_file(case, real):
+    V = []
+
+    def bad(kind, detail, **kw):
+        V.append(dict({'kind': kind, 'detail': f"{case['file']}: {detail}"}, **kw))
+    if 'exc' in real:
+        bad('file_roundtrip_exception', real['exc'])
+        return V
+    if len(real['p2']) != real['n'] or [c['kind'] for c in real['p2']] != [c['kind'] for c in real['p1']]:
+        bad('region_count', 'classes change through serialise/parse')
+    for a, b in zip(real['p1'], real['p2']):
+        ka = {e[0]: e[1] for e in a['meta'] + a['visual']}
+        kb = {e[0]: e[1] for e in b['meta'] + b['visual']}
+        for k in ka:
+            if k not in kb:
+                bad('meta_lost', f'{k} of the parsed region is not in its serialisation', key=k)
+                break
+    if [canon_unordered(c) for c in real['p2']] != [canon_unordered(c) for c in real['p3']] or real['t2'] != real['t3']:
+        keys = sorted({e[0] for x, y in zip(real['p2'], real['p3']) for e in x['meta'] + x['visual'] if e not in y['meta'] + y['visual']})
+        bad('not_fixed_point', f'second serialise/parse differs; keys {keys}', keys=keys, geometry=False)
+    return V
+
+
+
 class Check(PropertyCheck):
     id = 'C11'
     lean_targets = ['RegionsVerif.Props.C11']
     namespaces = ['RegionsVerif.Props.C11']
     parallel = True
-    rule = ''
-    assumptions = []
-    validated_only = []
+    rule = ('write: lists of 1..8 regions of the 8 CRTF classes (circle, circle annulus, ellipse, rectangle with angle, '
+            'polygon, line, text, point/symbol), all sky (each region in its own frame of fk5/fk4/icrs/galactic/'
+            'supergalactic/geocentrictrueecliptic) or all pixel, x coordsys (own frame or another sky frame; image) '
+            'x fmt .0f .. .12f x radunit deg/arcmin/arcsec/rad (image: deg/pix) x sizes in radunit or another angular unit '
+            'x angle deg/rad as Angle/Quantity x metadata (include absent/True/False/0/1, label incl. empty, type, frame, veltype, '
+            'restfreq, range as str/Quantity, corr, color, linewidth, linestyle, symsize, symthick, font, fontsize, fontstyle, '
+            'usetex, labelpos, labelcolor, labeloff, symbol, keys outside the CRTF vocabulary) in shuffled order; dyadic and '
+            'few-decimal numbers for exact rounding ties; a malformed stream (pixel/sky mismatch, unknown coordsys, classes '
+            'without template, arcsec with image, sizes below the precision). read: files of 1..6 region lines from the grammar '
+            '(every keyword incl. box/centerbox/rotbox, notations deg / bare / rad / pix / 12h30m15s / -12d30m15s / 12:30:15 / '
+            '-012.30.15, length units deg arcmin arcsec " \' rad pix and unknown, global lines incl. several and key case, inline '
+            'coord=, -, +, ann, comma/space variants, quotes) plus a malformed stream (no unit, bad key, upper-case key, pix in a sky '
+            'frame, point keyword, bad symbol, 2-vertex polygon, unknown frame, zero size, unknown unit, quote pair). file: the '
+            'bundled .crtf files. Non-trivial = something was written and read back, or a file was parsed into >= 1 region.')
+    assumptions = [
+        'astropy is a parameter: SkyCoord.transform_to / spherical lon-lat, Quantity.to(radunit), Angle/Quantity string parsing '
+        '(sexagesimal and rad notations are compared to 1e-11 relative, decimal degrees exactly), str(Quantity) for `range` '
+        '(table sent with each request), Longitude wrapping (longitudes compared modulo 360)',
+        'Python float formatting f"{x:.Nf}" is the correctly rounded (half-even on the exact value) decimal: modelled as fmtDec on '
+        'exact rationals and compared as strings on every written number',
+        'fmt is of the form ".Nf"; metadata values are str / int / bool / list of str / list of int (no floats); label, text and '
+        'scalar values contain no comma, quote, bracket or "=" and no leading/trailing blank (the reader\'s regular-expression '
+        'tokenisation is NOT modelled: the reader model is tied to the real parser through render, i.e. real parse(render L) vs '
+        'model parse L, and the writer model through string equality of the whole text)',
+        'errors="strict" (the Regions.parse default)']
+    validated_only = [
+        'character level: the real reader\'s regex tokenisation (regex_line / regex_region / regex_coordinate / regex_length / '
+        'regex_meta) is not modelled in Lean and there is no lex(render L) = L theorem; conformance of the tokenisation is decided '
+        'by the differential run only (real parse of the rendered text vs model parse of the structure) and by the bundled files '
+        '(oracle only)',
+        'fixed point for ARBITRARY input text (numbers with more decimals than fmt, other frames/units): checked by the oracle on '
+        'the real code (second and third serialisation identical); the Lean theorem crtf_fixed_point covers what the writer '
+        'itself produced (any region, then parse -> serialise -> parse is exact)',
+        'metadata clauses of crtf_roundtrip are theorems for include, type, label, text and the scalar keys; for the list keys '
+        '(corr, range, labeloff) preservation is checked by the correspondence and the oracle, not proved',
+        'frame transformation of coordinates, unit conversion and Quantity/Angle parsing are astropy\'s (parameters)',
+        'after an exception in the middle of a list the partial mutation of earlier regions (F6) is not modelled']
 
     # ---------------------------------------------------------------- generation
     def generate(self, rng, tier):
-        n_w = 900 if tier == 'quick' else 30000
-        cases = [gen_write_case(rng) for _ in range(n_w)]
+        n_w, n_r = (700, 1000) if tier == 'quick' else (25000, 40000)
+        cases = [{'kind': 'file', 'file': f, 'coordsys': cs, 'fmt': fm}
+                 for f in DATA_FILES for cs, fm in (('fk4', '.3f'), ('fk5', '.6f'), ('galactic', '.8f'))]
+        cases += [gen_write_case(rng) for _ in range(n_w)]
+        cases += [gen_read_case(rng) for _ in range(n_r)]
         return cases
 
     # ---------------------------------------------------------------- real
@@ -557,6 +962,8 @@ class Check(PropertyCheck):
             return real_write(case)
         if case['kind'] == 'read':
             return real_read(case)
+        if case['kind'] == 'file':
+            return real_file(case)
         raise ValueError(case['kind'])
 
     # ---------------------------------------------------------------- model
@@ -586,6 +993,8 @@ class Check(PropertyCheck):
         return replies[0] if replies else None
 
     def equal(self, case, real, model):
+        if case['kind'] == 'file':
+            return True          # no model: oracle only
         if model is None or 'fail' in model:
             return False
         if case['kind'] == 'write':
@@ -625,13 +1034,51 @@ class Check(PropertyCheck):
             return all(same_parsed(m, r) for m, r in zip(mp['ok'], real['parsed']))
         return False
 
+    # ---------------------------------------------------------------- oracle / findings
+    def oracle(self, case, real):
+        if case['kind'] == 'write':
+            return oracle_write(case, real)
+        if case['kind'] == 'read':
+            return oracle_read(case, real)
+        return oracle_file(case, real)
+
+    def finding_match(self, f, v):
+        """a violation is a known finding only if it is of the finding's kind AND the input is in its class."""
+        k, fid = v.get('kind'), f['id']
+        if fid == 'F6':
+            return (k == 'input_mutated' and v.get('mutated_has_include')) or \
+                   (k == 'serialize_twice_differs' and v.get('some_excluded'))
+        if fid == 'F7':
+            return k == 'text_lost'
+        if fid in ('F19', 'F20', 'F21', 'F33'):
+            causes = [c for c in ('F20', 'F21', 'F33', 'F19') if c in v.get('causes', [])]
+            if k == 'roundtrip_unreadable' and causes and causes[0] == fid:
+                return True
+            return fid == 'F33' and k == 'valid_file_rejected' and bool(v.get('quote_pair'))
+        if fid == 'F31':
+            return k == 'meta_lost' and v.get('key') == 'labelcolor'
+        if fid == 'F32':
+            return (k == 'meta_changed' and v.get('key') == 'labeloff' and v.get('strings')) or \
+                   (k == 'not_fixed_point' and v.get('keys') == ['labeloff'] and not v.get('geometry'))
+        return False
+
+    def nontrivial(self, case, real):
+        if case['kind'] == 'write':
+            return 'parsed' in real
+        if case['kind'] == 'read':
+            return bool(real.get('parsed'))
+        return real.get('n', 0) > 0
+
+    def search(self, rng, tier, disagreements):
+        return [gen_write_case(rng) for _ in range(1500)] + [gen_read_case(rng) for _ in range(1500)]
+
     def bucket(self, case, real):
         if case['kind'] == 'write':
             st = 'exc' if 'exc' in real else ('unreadable' if 'parse_exc' in real else 'ok')
             return f"write/{'image' if case['coordsys'] == 'image' else 'sky'}/{case['radunit']}/{st}"
         if case['kind'] == 'read':
             return f"read/{case['note']}/{real.get('exc', 'ok')}"
-        return case['kind']
+        return 'file/' + case['file']
 
 
 # ------------------------------------------------------------------ read side: structured lines
